@@ -93,7 +93,95 @@ func dataMsg(version, tid int) []byte {
 	return append(msg, set...)
 }
 
+// ---- freshness: versions that can be read back from a lookup ----
+// version n of a template = 6 fields of 4 octets whose element ids spell n in base 8
+var digits = []uint16{8, 10, 12, 14, 16, 17, 21, 22}
+
+func versionFields(n int) []uint16 {
+	out := make([]uint16, 6)
+	for i := range out {
+		out[i] = digits[n%8]
+		n /= 8
+	}
+	return out
+}
+
+func versionOf(ids []uint16) int {
+	if len(ids) != 6 {
+		return -1
+	}
+	n, m := 0, 1
+	for _, id := range ids {
+		d := -1
+		for k, x := range digits {
+			if x == id {
+				d = k
+			}
+		}
+		if d < 0 {
+			return -1
+		}
+		n += d * m
+		m *= 8
+	}
+	return n
+}
+
+func dataMsg24(version, tid int) []byte {
+	rec := make([]byte, 24)
+	set := append([]byte{byte(tid >> 8), byte(tid), 0, byte(4 + len(rec))}, rec...)
+	hl := 16
+	if version == 9 {
+		hl = 20
+	}
+	msg := make([]byte, hl)
+	binary.BigEndian.PutUint16(msg[0:], uint16(version))
+	if version == 10 {
+		binary.BigEndian.PutUint16(msg[2:], uint16(hl+len(set)))
+	}
+	return append(msg, set...)
+}
+
+// the version of (exporter, tid) that a data set is decoded with right now (-1: no template / not decodable)
+func lookup9(mc netflow9.MemCache, ip net.IP, tid int) int {
+	m, _ := netflow9.NewDecoder(ip, dataMsg24(9, tid)).Decode(mc)
+	if m == nil || len(m.DataSets) != 1 {
+		return -1
+	}
+	ids := make([]uint16, len(m.DataSets[0]))
+	for i, f := range m.DataSets[0] {
+		ids[i] = f.ID
+	}
+	return versionOf(ids)
+}
+
+func lookup10(mc ipfix.MemCache, ip net.IP, tid int) int {
+	m, _ := ipfix.NewDecoder(ip, dataMsg24(10, tid)).Decode(mc)
+	if m == nil || len(m.DataSets) != 1 {
+		return -1
+	}
+	ids := make([]uint16, len(m.DataSets[0]))
+	for i, f := range m.DataSets[0] {
+		ids[i] = f.ID
+	}
+	return versionOf(ids)
+}
+
+// a template set with two field-less template records (what RFC 7011 8.1 calls a template withdrawal; the collector keeps it as
+// an empty, complete template): ids tid and 999
+func ipfixFieldlessMsg(tid int) []byte {
+	body := []byte{byte(tid >> 8), byte(tid), 0, 0, 0x03, 0xe7, 0, 0}
+	set := append([]byte{0, 2, 0, byte(4 + len(body))}, body...)
+	msg := make([]byte, 16)
+	binary.BigEndian.PutUint16(msg[0:], 10)
+	binary.BigEndian.PutUint16(msg[2:], uint16(16+len(set)))
+	return append(msg, set...)
+}
+
 func member(e, tid int, got []uint16) bool {
+	if len(got) == 0 {
+		return true // the field-less definition is announced for every key (ipfixFieldlessMsg)
+	}
 	for v := 0; v < 8; v++ {
 		f := fieldsOf(e, tid, v)
 		if len(f) != len(got) {
@@ -139,7 +227,9 @@ func main() {
 			for i := 0; atomic.LoadInt32(&stop) == 0; i++ {
 				e := (w + i) % len(exporters)
 				tid := tids[(w*3+i)%len(tids)]
-				if i%3 == 0 {
+				if i%7 == 5 {
+					ipfix.NewDecoder(exporters[e], ipfixFieldlessMsg(tid)).Decode(mc)
+				} else if i%3 == 0 {
 					ipfix.NewDecoder(exporters[e], ipfixTemplateMsg(tid, fieldsOf(e%3, tid, (w+i)%8))).Decode(mc)
 				} else {
 					ipfix.NewDecoder(exporters[e], dataMsg(10, tid)).Decode(mc)
@@ -225,9 +315,72 @@ func main() {
 		return 0
 	}, "nf9")
 
+	// freshness ("not already superseded before the lookup began"): each OWNER is the only announcer of its keys (its own exporter,
+	// 24 template ids, so that several keys share a shard), announces version n and looks it up at once: it must get n.  READERS
+	// look the same keys up in alternation; whatever they get for a key must never be older than what they got before.
+	const nOwners, nKeys = 2, 24
+	ownerIP := func(proto, o int) net.IP { return net.IPv4(198, 51, byte(100+proto), byte(1+o)).To4() }
+	var fresh uint64
+	for o := 0; o < nOwners; o++ {
+		wg.Add(2)
+		go func(o int) {
+			defer wg.Done()
+			ip := ownerIP(9, o)
+			for n := 1; atomic.LoadInt32(&stop) == 0; n++ {
+				tid := 1000 + n%nKeys
+				netflow9.NewDecoder(ip, nf9TemplateMsg(tid, versionFields(n/nKeys+1))).Decode(mc9)
+				if got := lookup9(mc9, ip, tid); got != n/nKeys+1 {
+					fail("netflow v9: exporter %v announced version %d of template %d and its very next data set was decoded with version %d (a superseded definition)", ip, n/nKeys+1, tid, got)
+					return
+				}
+				atomic.AddUint64(&fresh, 1)
+			}
+		}(o)
+		go func(o int) {
+			defer wg.Done()
+			ip := ownerIP(10, o)
+			for n := 1; atomic.LoadInt32(&stop) == 0; n++ {
+				tid := 1000 + n%nKeys
+				ipfix.NewDecoder(ip, ipfixTemplateMsg(tid, versionFields(n/nKeys+1))).Decode(mc)
+				if got := lookup10(mc, ip, tid); got != n/nKeys+1 {
+					fail("ipfix: exporter %v announced version %d of template %d and its very next data set was decoded with version %d (a superseded definition)", ip, n/nKeys+1, tid, got)
+					return
+				}
+				atomic.AddUint64(&fresh, 1)
+			}
+		}(o)
+	}
+	for r := 0; r < 6; r++ {
+		wg.Add(1)
+		go func(r int) {
+			defer wg.Done()
+			var last9, last10 [nOwners][nKeys]int
+			for i := r; atomic.LoadInt32(&stop) == 0; i++ {
+				o, k := i%nOwners, (i/nOwners*(r+1))%nKeys
+				if v := lookup9(mc9, ownerIP(9, o), 1000+k); v >= 0 {
+					if v < last9[o][k] {
+						fail("netflow v9: a lookup of template %d of %v returned version %d after an earlier lookup had already returned version %d", 1000+k, ownerIP(9, o), v, last9[o][k])
+						return
+					}
+					last9[o][k] = v
+				}
+				if v := lookup10(mc, ownerIP(10, o), 1000+k); v >= 0 {
+					if v < last10[o][k] {
+						fail("ipfix: a lookup of template %d of %v returned version %d after an earlier lookup had already returned version %d", 1000+k, ownerIP(10, o), v, last10[o][k])
+						return
+					}
+					last10[o][k] = v
+				}
+			}
+		}(r)
+	}
+
 	time.Sleep(*dur)
 	atomic.StoreInt32(&stop, 1)
 	wg.Wait()
+	if fresh == 0 {
+		fail("the freshness workers made no progress")
+	}
 
 	// superseding: after a re-announcement that changes ONLY the scope part of an options template, lookups and
 	// data decoding must use the new definition (a "refresh" fast path that compares too little would keep the old one)
